@@ -1,4 +1,4 @@
-//go:build !verifoverlay
+//go:build !verif
 
 package main
 
